@@ -258,8 +258,10 @@ class Shell:
             pass
 
     # ---- snapshots
+    inplace = False      # set for stores that keep descriptors open (SQLite): snapshots restore the directory in place
+
     def snap(self, copy=True):
-        r = self.cmd("SNAP" if copy else "SNAP copy=0")
+        r = self.cmd(("SNAP inplace=1" if self.inplace else "SNAP") if copy else "SNAP copy=0")
         assert "snap" in r, r
         return r["snap"]
 
